@@ -592,7 +592,7 @@ func (e *Exec) specCall(c *ast.CallExpr, env *SpecEnv) (Val, types.Type) {
 			case SliceV:
 				e.declareFun("str.of", []string{SInt, SInt, SInt, SArrI}, SInt)
 				key, sort := elemsKey(types.Typ[types.Byte])
-				r := sx("str.of", sl.Base, sl.Off, sl.Len, mkSelect(e.heapGet(key, sort), sl.Base))
+				r := e.nameTerm("str", sx("str.of", sl.Base, sl.Off, sl.Len, mkSelect(e.heapGet(key, sort), sl.Base)), SInt)
 				e.addFact(mkEq(sx("strlen", r), sl.Len))
 				return iv(r), types.Typ[types.String]
 			case ArrSliceV:
@@ -806,7 +806,7 @@ func (e *Exec) specCall(c *ast.CallExpr, env *SpecEnv) (Val, types.Type) {
 			if sort == SArrB {
 				return bv(r), tBool
 			}
-			return iv(r), tInt
+			return iv(r), untypedInt // ghost ints also hold references: never boxed when compared with interfaces
 		}
 		// pkg.T(x) conversion
 		if t := e.resolveType(sel, env); t != nil && len(c.Args) == 1 {
@@ -1069,7 +1069,7 @@ func (e *Exec) pureApp(fn *types.Func, recvT types.Type, recv Val, args []Val, r
 			var parts [3]string
 			for i, p := range []string{".base", ".off", ".len"} {
 				e.declareFun(name+suffix+p, ss, SInt)
-				parts[i] = sx(name+suffix+p, as...)
+				parts[i] = e.nameTerm("pa"+p, sx(name+suffix+p, as...), SInt)
 			}
 			e.addFact(mkAnd(sx(">=", parts[2], "0"), sx(">=", parts[1], "0")))
 			if a, ok := t.Underlying().(*types.Array); ok {
